@@ -163,10 +163,22 @@ def run_cli(shard, ctx):
                 ctx.count("cli:primary-mode-with-several-other-assemblies")
             fmt = rng.choice(["agp", "tpf"])
         try:
-            check_cli(cr, ctx, fmt)
-            if mode == 0 and i % 8 == 0 and replace_fasta_keeping_cache_mtime(cr, rng):
-                cli_runs.clear_outputs(cr)
-                ctx.count("cli:rerun-after-fasta-replaced-with-cache-mtime")
+            if mode == 0:
+                # FASTA input: the indexer works with a small buffer in two cases out of three, so that records
+                # are longer than the buffer and runs of N end on buffer boundaries (as they do, at 250 000
+                # residues, in chromosome-sized records)
+                from vf.props.c17 import patched_buffer
+
+                bs_ = [5, 60, 250000][i % 3]
+                if bs_ < 250000:
+                    ctx.count("cli:fasta-input-indexed-with-small-buffer")
+                with patched_buffer(bs_):
+                    check_cli(cr, ctx, fmt)
+                    if i % 8 == 0 and replace_fasta_keeping_cache_mtime(cr, rng):
+                        cli_runs.clear_outputs(cr)
+                        ctx.count("cli:rerun-after-fasta-replaced-with-cache-mtime")
+                        check_cli(cr, ctx, fmt)
+            else:
                 check_cli(cr, ctx, fmt)
         finally:
             cli_runs.cleanup(cr)
@@ -211,6 +223,7 @@ def gates(c, tier):
         "cli:name-spelled-haplotype-seen-before-its-tag": 3,
         "cli:hostile-map-under-python-O": 40,
         "cli:rerun-after-fasta-replaced-with-cache-mtime": 10,
+        "cli:fasta-input-indexed-with-small-buffer": 20,
         "out:multi-assembly": 100,
         "out:with-cuts": 300,
         "label:in:both-strands": 500,
